@@ -21,7 +21,8 @@ import Bng.Model.PeerCluster
     leak        a release was answered ok but the subscriber still holds an address at another node
     agree       the rank-first owner answers Get with none while the subscriber holds an address elsewhere
                 → finding KF-peerpool-failover-orphan, only if one of the two routings involved was a
-                  fallback routing (served node ≠ top of the ranking), i.e. a node was considered unhealthy
+                  fallback routing: served node ≠ top of the ranking AND the MODEL's health view of the entry
+                  node marks the top of the ranking unhealthy at that moment
 -/
 namespace Bng.Drv.PeerClusterDrv
 open Bng Bng.Drv Bng.FreeList Bng.PeerCluster
@@ -95,7 +96,11 @@ def step (st : St) (toks : List String) (impl : String) : St × LineResult :=
       | ["ok", a, sv, _] =>
         match parseHex a, kv "served=" sv >>= (·.toNat?) with
         | some a, some j =>
-          let fb := ranked.head? != some j
+          -- a FALLBACK routing: the request was served by another node than the top of the ranking AND
+          -- the model's health view of the entry node i marks that top node unhealthy (a routing past a
+          -- healthy owner is not covered by the finding)
+          let fb := ranked.head? != some j &&
+            (match ranked.head? with | some top => m.unhealthy.contains (i, top) | none => false)
           let (ms', vs) := Spec.mcheck st.mgeo (nodeMst st j) (.pool (.got k a))
           let v1 := vs.map fun (n, d) => (n, "none", d)
           let v2 := match holderElsewhere st j k a with
@@ -130,7 +135,11 @@ def step (st : St) (toks : List String) (impl : String) : St × LineResult :=
       | ["ok", sv, _] =>
         match kv "served=" sv >>= (·.toNat?) with
         | some j =>
-          let fb := ranked.head? != some j
+          -- a FALLBACK routing: the request was served by another node than the top of the ranking AND
+          -- the model's health view of the entry node i marks that top node unhealthy (a routing past a
+          -- healthy owner is not covered by the finding)
+          let fb := ranked.head? != some j &&
+            (match ranked.head? with | some top => m.unhealthy.contains (i, top) | none => false)
           let (ms', _) := Spec.mcheck st.mgeo (nodeMst st j) (.pool (.released k))
           let v := match elsewhere st j k with
             | some (j', h) => [("leak", orphanClause fb h.fallback,
